@@ -25,6 +25,7 @@ type Entry struct {
 	Link string `json:"link,omitempty"`
 	Body string `json:"body,omitempty"`
 	Pad  int    `json:"pad,omitempty"` // extra body bytes (deterministic filler)
+	Zero int    `json:"zero,omitempty"` // zero bytes after that (a preallocated tail)
 }
 
 // RawMut mutates the uncompressed tar stream (C19 workload): byte Off of
@@ -67,15 +68,15 @@ var typeFlags = map[string]byte{
 }
 
 func (e Entry) body() []byte {
-	if e.Pad == 0 {
+	if e.Pad == 0 && e.Zero == 0 {
 		return []byte(e.Body)
 	}
-	b := make([]byte, 0, len(e.Body)+e.Pad)
+	b := make([]byte, 0, len(e.Body)+e.Pad+e.Zero)
 	b = append(b, e.Body...)
 	for i := 0; i < e.Pad; i++ {
 		b = append(b, byte('a'+(i*7+len(e.Body))%23))
 	}
-	return b
+	return append(b, make([]byte, e.Zero)...)
 }
 
 // BuildTar encodes the entries with Go's tar writer. It returns the
